@@ -33,10 +33,14 @@ TRUSTED = [
     "vlib/elfread.py eh_frame()/eh_frame_hdr() (sdata4|pcrel / datarel encodings), gcc/g++/clang/as, static glibc + libstdc++ for the native oracle, GNU ld",
 ]
 RULE = ("freestanding links of 2-5 generated objects (asm with .cfi_* incl. personality/LSDA/signal-frame CIEs, C and C++ translation units compiled with "
-        "-ffunction-sections, inline COMDAT functions repeated across TUs, unreferenced (collected) functions, empty sections) + static C++ programs "
+        "-ffunction-sections, inline COMDAT functions repeated across TUs, unreferenced (collected) functions, empty sections, asm objects with SEVERAL "
+        ".eh_frame input sections: a plain one plus one per COMDAT group of a weak inline-style function, hand-written CIE/FDE bytes of varying size, "
+        "either section order, the same group carried by two objects) + static C++ programs "
         "throwing through every retained generated function; non-trivial = at least one FDE dropped and one kept; distinct by request line")
 ASSUMPTIONS = ["x86-64; no linker relaxation deletes bytes (section_relax_deltas is empty on x86-64)",
-               "one .eh_frame input section per object, pc_begin relocations against symbols defined in the same object",
+               "pc_begin relocations against symbols defined in the same object; an object may have several .eh_frame input sections (plain + per "
+               "COMDAT group), whose entries continue the object's entry list in section order; a CIE pointer never leaves its own section; no "
+               "trailing terminator bytes in objects with several .eh_frame sections",
                "32-bit range of the table fields not exercised"]
 
 STUBS = """
@@ -74,15 +78,19 @@ def cie_tag(b):
 
 
 def parse_obj(path):
-    """-> dict(secs=[(name,size)], entries=[...], syms) for one relocatable object."""
+    """-> dict(secs=[(name,size)], entries=[...], syms) for one relocatable object.
+    An object may have SEVERAL `.eh_frame` input sections (e.g. a plain one plus one per COMDAT group): they are taken in section-index
+    order (the order `ObjectLayoutState::activate` and the writer visit them) and the entries of a later section continue the object's
+    entry list, exactly as the code's per-object frame vector / `FrameIndex` does. Offsets (`ciePos`) are offsets in that concatenation:
+    the writer restarts `input_pos` and `cies_offset_conversion` for every section, which is the same thing as long as a CIE pointer
+    does not leave its own section (checked here)."""
     e = Elf(path)
     syms = e.symtab()
     eh = [s for s in e.sections if s.name == ".eh_frame"]
     entries = []
-    if eh:
-        if len(eh) != 1:
-            raise RuntimeError("more than one .eh_frame in " + path)
-        s = eh[0]
+    base = 0
+    per_section = []
+    for s in eh:
         d = e.sec_data(s)
         rel = None
         for x in e.sections:
@@ -90,6 +98,7 @@ def parse_obj(path):
                 rel = sorted(e.relas(x))
         rel = rel or []
         p = 0
+        nent = 0
         while p + 8 <= len(d):
             ln, cid = struct.unpack_from("<II", d, p)
             size = 4 + ln
@@ -98,6 +107,8 @@ def parse_obj(path):
             if cid == 0:
                 entries.append(("C", size, cie_tag(d[p:p + size])))
             else:
+                if p + 4 - cid < 0:
+                    raise RuntimeError(f"FDE at {p:#x} of .eh_frame section {s.index} of {path}: CIE pointer leaves the section")
                 first = [r for r in rel if p <= r[0] < p + size]
                 tgt, off = None, 0
                 if first and first[0][0] == p + 8:
@@ -106,9 +117,14 @@ def parse_obj(path):
                     if y.shndx not in (0, 0xFFF1, 0xFFF2):
                         tgt = y.shndx
                         off = y.value + addend
-                entries.append(("F", size, p + 4 - cid, tgt, off))
+                entries.append(("F", size, base + p + 4 - cid, tgt, off))
             p += size
-    return {"elf": e, "entries": entries, "syms": syms, "path": path}
+            nent += 1
+        if p != len(d) and len(eh) > 1:
+            raise RuntimeError(f".eh_frame section {s.index} of {path} has trailing bytes; not modelled for objects with several .eh_frame sections")
+        base += p
+        per_section.append(nent)
+    return {"elf": e, "entries": entries, "syms": syms, "path": path, "eh_sections": per_section}
 
 
 def section_addrs(obj, out_syms_by_name, claimed):
@@ -246,6 +262,69 @@ def gen_asm_obj(r, k, nfun, all_names, locals_):
     return "".join(out), names
 
 
+def _cie(lbl, variant):
+    """A hand-written CIE (`.cfi_*` directives can only fill ONE .eh_frame section per object)."""
+    init = {0: "    .byte 0x0c, 7, 8\n    .byte 0x90, 1\n",                       # def_cfa rsp+8; rip at cfa-8
+            1: "    .byte 0x0c, 7, 8\n    .byte 0x90, 1\n    .byte 0, 0, 0, 0, 0, 0, 0, 0\n",   # the same + 8 nops: a different size
+            2: "    .byte 0x0c, 7, 8\n    .byte 0x90, 1\n    .byte 0x0e, 8\n"}[variant]
+    return (f"{lbl}:\n    .long {lbl}_e - {lbl}_s\n{lbl}_s:\n    .long 0\n    .byte 1\n    .asciz \"zR\"\n    .uleb128 1\n    .sleb128 -8\n"
+            f"    .uleb128 16\n    .uleb128 1\n    .byte 0x1b\n{init}    .balign 8\n{lbl}_e:\n")
+
+
+def _fde(lbl, cie, begin, end, extra):
+    """A hand-written FDE: length, CIE pointer (distance back to the CIE), pc_begin (pcrel sdata4), pc_range, augmentation length 0,
+    `extra` more bytes of CFA program (advance_loc 1 / def_cfa_offset pairs, then nops) so that FDE sizes differ."""
+    prog = "".join("    .byte 0x41, 0x0e, 16\n" for _ in range(extra // 3)) if extra else ""
+    return (f"{lbl}:\n    .long {lbl}_e - {lbl}_s\n{lbl}_s:\n    .long {lbl}_s - {cie}\n    .long {begin} - .\n    .long {end} - {begin}\n"
+            f"    .uleb128 0\n{prog}    .balign 8\n{lbl}_e:\n")
+
+
+def gen_meh_obj(r, k, names, groups, all_names, locals_):
+    """asm object k with MORE THAN ONE `.eh_frame` section: a plain `.eh_frame` for its ordinary functions plus, for every weak
+    inline-style function inl_Q it carries, a second `.eh_frame` that is a member of that function's COMDAT group
+    (`.section .eh_frame,"aG",@progbits,inl_Q,comdat`), which is how toolchains that emit per-group unwind info lay things out.
+    Both orders of the sections occur; unreferenced functions are collected (their FDEs must disappear); another object may carry the
+    same group (then this copy's `.text.inl_Q` is not loaded and its FDE must disappear while the group's CIE is still copied)."""
+    blocks = []
+    # plain block: ordinary functions + the plain .eh_frame (1-2 CIEs)
+    txt, eh = [], []
+    ncie = r.range(1, 2)
+    for c in range(ncie):
+        eh.append(_cie(f".Lcie{k}_p{c}", r.below(3)))
+        for j, nm in enumerate(names):
+            if j % ncie != c:
+                continue
+            local = nm in locals_
+            txt.append(f'    .section .text.{nm},"ax",@progbits\n')
+            if not local:
+                txt.append(f"    .globl {nm}\n")
+            txt.append(f"    .type {nm}, @function\n{nm}:\n.Lb_{nm}:\n    push %rbx\n")
+            for _ in range(r.range(0, 2)):
+                if all_names:
+                    txt.append(f"    call {r.choice(all_names)}\n")
+            if j + 1 < len(names) and r.chance(1, 2):
+                txt.append(f"    call {names[j + 1]}\n")
+            for q in groups:
+                if r.chance(1, 2):
+                    txt.append(f"    call inl_{q}\n")
+            txt.append(f"    pop %rbx\n    ret\n.Le_{nm}:\n    .size {nm}, .-{nm}\n")
+            # pc_begin through a local label (section symbol + offset) or through the function's own symbol
+            begin = nm if (not local and r.chance(1, 3)) else f".Lb_{nm}"
+            eh.append(_fde(f".Lfde{k}_{nm}", f".Lcie{k}_p{c}", begin, f".Le_{nm}", r.choice([0, 0, 6, 12, 24])))
+    blocks.append("".join(txt) + '    .section .eh_frame,"a",@progbits\n' + "".join(eh))
+    # one block per COMDAT group: the weak function and the group's own .eh_frame (own CIE)
+    for q in groups:
+        nm = f"inl_{q}"
+        b = [f'    .section .text.{nm},"axG",@progbits,{nm},comdat\n    .weak {nm}\n    .type {nm}, @function\n{nm}:\n.Lb{k}_{nm}:\n'
+             f"    push %rbx\n    push %r12\n" + ("    nop\n" * (k % 3)) + f"    pop %r12\n    pop %rbx\n    ret\n.Le{k}_{nm}:\n    .size {nm}, .-{nm}\n",
+             f'    .section .eh_frame,"aG",@progbits,{nm},comdat\n',
+             _cie(f".Lcie{k}_g{q}", r.below(3)),
+             _fde(f".Lfde{k}_g{q}", f".Lcie{k}_g{q}", f".Lb{k}_{nm}", f".Le{k}_{nm}", r.choice([0, 6, 12, 18, 30]))]
+        blocks.append("".join(b))
+    blocks = r.shuffle(blocks)
+    return "".join(blocks), names
+
+
 def gen_c_obj(r, k, nfun, all_names, cxx, locals_):
     src = []
     names = []
@@ -277,21 +356,35 @@ def gen_c_obj(r, k, nfun, all_names, cxx, locals_):
 def build_case(ctx, r, d, idx):
     os.makedirs(d, exist_ok=True)
     nobj = r.range(2, 5)
-    kinds = [r.choice(["asm", "asm", "c", "cxx"]) for _ in range(nobj)]
+    kinds = [r.choice(["asm", "asm", "c", "cxx", "meh"]) for _ in range(nobj)]
+    # objects with several .eh_frame sections: forced into a good part of the cases, sometimes two of them carrying the same COMDAT group
+    force = r.below(5)
+    if force <= 1:
+        kinds[r.below(nobj)] = "meh"
+    if force == 0:
+        kinds[r.below(nobj)] = "meh"
+    groups = {}
+    for k, kind in enumerate(kinds):
+        if kind == "meh":
+            groups[k] = sorted(set([0] if force == 0 else []) | set(r.shuffle([0, 1, 2])[:r.range(1, 2)]))
     # names known up front so that objects can call each other
     plan = []
     for k, kind in enumerate(kinds):
         nfun = r.range(2, 5)
-        prefix = {"asm": "a", "c": "c", "cxx": "x"}[kind]
+        prefix = {"asm": "a", "c": "c", "cxx": "x", "meh": "m"}[kind]
         plan.append([f"{prefix}{k}_{j}" for j in range(nfun)])
     locals_ = {n for k, names in enumerate(plan) for n in names if kinds[k] != "cxx" and r.chance(1, 5)}
     callable_ = [n for k, names in enumerate(plan) for n in names if n not in locals_]
+    callable_ += [f"inl_{q}" for q in sorted({q for qs in groups.values() for q in qs})]
     objs = []
     for k, kind in enumerate(kinds):
         mine = set(plan[k])
         others = [n for n in callable_ if n not in mine and r.chance(1, 2)]
         if kind == "asm":
             text, names = gen_asm_obj(r, k, len(plan[k]), others, locals_)
+            o = lu.asm_obj(d, f"o{k}", text)
+        elif kind == "meh":
+            text, names = gen_meh_obj(r, k, plan[k], groups[k], [n for n in others if not n.startswith("inl_")], locals_)
             o = lu.asm_obj(d, f"o{k}", text)
         else:
             cxx = kind == "cxx"
@@ -318,7 +411,7 @@ def build_case(ctx, r, d, idx):
     main.append('    .section .text.dtor,"ax",@progbits\n    .globl _ZN1GD1Ev, _ZN1GD2Ev\n_ZN1GD1Ev:\n_ZN1GD2Ev:\n    ret\n')
     main.append(STUBS)
     objs.insert(0, lu.asm_obj(d, "main", "".join(main)))
-    return objs, kinds
+    return objs, kinds, groups
 
 
 CXX_TU = """
@@ -373,7 +466,7 @@ def run(ctx):
     for i in range(n_free):
         d = os.path.join(ctx.scratch, f"c{i}")
         try:
-            objs, kinds = build_case(ctx, r, d, i)
+            objs, kinds, groups = build_case(ctx, r, d, i)
         except RuntimeError as ex:
             ctx.count("gen", "build-failed")
             ctx.sample({"build-failed": str(ex)[:300]})
@@ -421,6 +514,12 @@ def run(ctx):
         ctx.count("fdes", "in", nf)
         ctx.count("fdes", "out", hdr["count"])
         ctx.count("cies-per-object", str(max(sum(1 for en in po["entries"] if en[0] == "C") for po in parsed)))
+        ctx.count("eh_frame-sections-per-object(max)", str(max(len(po["eh_sections"]) for po in parsed)))
+        if groups:
+            allq = [q for qs in groups.values() for q in qs]
+            ctx.count("comdat-eh_frame", "group-carried-by-two-objects" if len(allq) != len(set(allq)) else "groups-distinct")
+            multi = [po for po in parsed if len(po["eh_sections"]) > 1]
+            ctx.count("comdat-eh_frame", "case-with-later-section-fde", sum(1 for po in multi if any(po["eh_sections"][1:])))
         # GNU ld's count for the same inputs (when it retains the same functions)
         rc2, _, e2 = lu.link("ld", ["--gc-sections", "--eh-frame-hdr", "-o", out + ".ld"] + objs, cwd=d)
         if rc2 == 0:
